@@ -363,6 +363,7 @@ fn replay_chunk(cases: &[Value], rep: &mut Report) {
 fn large_list_laws(rep: &mut Report) {
   for entries in [1usize << 23, (1 << 23) + 8, 10_000_000, (1 << 24) + 3] {
     let ctx = json!({"law": "large list survives its encoded form", "entries": entries});
+    note_case(&ctx);
     rep.eval();
     let r = guarded(|| -> Result<(), String> {
       let mut l = StatusList2021::new(entries).map_err(|e| format!("new: {e}"))?;
